@@ -92,6 +92,10 @@ def handleSpecial (stream : String) (args : List String) : String :=
     match unhex hx with
     | some bs => showRes (runS Ice.usernameFromStun bs) (fun r => if r.1 then "some " ++ hexA r.2 else "none")
     | none => "bad-hex"
+  | "stunmi", [hx] =>
+    match unhex hx with
+    | some bs => showRes (runS Ice.verifyMi bs) (fun _ => "")       -- outcome class only (the HMAC is outside the model)
+    | none => "bad-hex"
   | "hpkt", [hx] =>
     match unhex hx with
     | some bs => showRes (runS Ice.handlePacketClass bs) (fun c => if c = 2 then s!"fwd {bs.length}" else "nofwd")
@@ -129,6 +133,8 @@ def handleSpecial (stream : String) (args : List String) : String :=
   | "sdpparse", _ => "noncompared"
   | "sdpset", _ => "noncompared"
   | "dtlslive", _ => "noncompared"
+  | "srtp", _ => "noncompared"
+  | "srtpflood", _ => "noncompared"
   | "udptlbuf", ms :: e0 :: ops =>
     match ms.toNat?, e0.toNat?, ops.mapM (fun t => match fields t with | [a, b] => do some (← a.toNat?, ← b.toNat?) | _ => none) with
     | some ms, some e0, some ops =>
